@@ -64,6 +64,8 @@ struct System {
   // structured assignments with any number of deviations (e.g. "field T does not depend on x and y": all amplitudes of its x- and
   // y-dependent modes zero): list of (parameter name, value) sets, explored in addition to the deviation ball
   std::function<std::vector<std::vector<std::pair<std::string, LD>>>(const std::vector<std::string>&)> structured;
+  // families of like parameters inside which zero sets of any size are explored (default: amplitudes X_d that have a frequency a_Xd, and those frequencies)
+  std::function<std::vector<std::vector<std::string>>(const std::vector<std::string>&)> zero_families;
   bool pointwise_admissibility;  // an inadmissible (assignment, point) pair drops only that point, not the whole assignment
   bool base_from_default;  // base = library defaults x distinct factors in (1, 1.07) instead of the generic base
   int max_dev_quick, max_dev_thorough;
